@@ -128,6 +128,9 @@ func main() {
 		case "C04", "C01", "C05", "C11", "C17":
 			c02ExpiredNestedCall(rep, prop, api)
 		}
+		if prop == "C01" || prop == "C02" || prop == "C13" {
+			c01PingPong(rep, prop, api)
+		}
 		if prop == "C16" || prop == "C05" {
 			panickingClosures(rep, prop, api, 6, false)
 		}
